@@ -4,9 +4,9 @@ package simrt
 // The recorded result is always an explicit list of choices, so a replay does
 // not depend on the strategy.
 type Strategy struct {
-	Kind   string // "uniform", "sticky", "pct", "seq"
-	Den    int    // sticky: switch with probability 1/Den
-	Depth  int    // pct: number of priority change points
+	Kind   string // "uniform", "sticky", "pct", "syncpct", "rare", "seq"
+	Den    int    // sticky: switch with probability 1/Den; rare: demote with probability 1/Den
+	Depth  int    // pct: number of priority change points; rare: a site is rare while it has run at most Depth times
 	EstLen int    // pct: estimated number of decision points
 }
 
@@ -30,6 +30,42 @@ type Tape struct {
 	changes map[int]bool
 	nextLow int
 	ndec    int
+	// major: the decision about to be made follows a synchronisation operation
+	// (set by the scheduler); nmajor counts such decisions
+	major  bool
+	nmajor int
+	// rare state: executions per yield site, tasks to demote at the next decision
+	siteCount map[int64]int
+	demote    map[int]bool
+}
+
+// noteSite is told every statement-level yield. Under the "rare" strategy --
+// strict priorities as in PCT, but with the priority change points placed
+// where the program is at a RARELY executed site rather than at uniformly
+// random steps -- the task standing at a site that has run at most Depth times
+// is, with probability 1/Den, demoted below everyone else. A window that opens
+// between two statements executed once or twice per run (check, then act) is
+// hit with constant probability however many thousand steps the run has, where
+// uniform change points need about as many runs as the run has steps.
+func (tp *Tape) noteSite(task int, site int64) {
+	if tp == nil || tp.Strat.Kind != "rare" || tp.Rng == nil || tp.spos < len(tp.Sched) {
+		return
+	}
+	if tp.siteCount == nil {
+		tp.siteCount = map[int64]int{}
+		tp.demote = map[int]bool{}
+	}
+	tp.siteCount[site]++
+	max, den := tp.Strat.Depth, tp.Strat.Den
+	if max < 1 {
+		max = 3
+	}
+	if den < 2 {
+		den = 2
+	}
+	if tp.siteCount[site] <= max && tp.Rng.Intn(den) == 0 {
+		tp.demote[task] = true
+	}
 }
 
 func NewTape(rng *Rand, st Strategy) *Tape {
@@ -106,8 +142,21 @@ func (tp *Tape) sched(ids []int, curFirst bool) int {
 					v = tp.Rng.Intn(n)
 				}
 			}
-		case "pct":
+		case "pct", "rare":
 			v = tp.pct(ids, curFirst)
+		case "syncpct":
+			// PCT as published: threads are only pre-empted at synchronisation
+			// operations, and the Depth change points are drawn among those
+			// (EstLen of them), not among all steps. Between two of them a
+			// thread runs undisturbed however long it computes.
+			if !tp.major && curFirst {
+				v = 0
+			} else {
+				if tp.major {
+					tp.nmajor++
+				}
+				v = tp.pct(ids, curFirst)
+			}
 		default:
 			v = tp.Rng.Intn(n)
 		}
@@ -125,19 +174,34 @@ func (tp *Tape) pct(ids []int, curFirst bool) int {
 		if est < 8 {
 			est = 8
 		}
-		for i := 0; i < tp.Strat.Depth; i++ {
-			tp.changes[1+tp.Rng.Intn(est)] = true
+		if tp.Strat.Kind == "pct" || tp.Strat.Kind == "syncpct" {
+			for i := 0; i < tp.Strat.Depth; i++ {
+				tp.changes[1+tp.Rng.Intn(est)] = true
+			}
 		}
 		tp.nextLow = -1
+	}
+	for id := range tp.demote {
+		tp.prio[id] = tp.nextLow
+		tp.nextLow--
+		delete(tp.demote, id)
 	}
 	for _, id := range ids {
 		if _, ok := tp.prio[id]; !ok {
 			tp.prio[id] = 1 + tp.Rng.Intn(1<<20)
 		}
 	}
-	if tp.changes[tp.ndec] && curFirst {
+	step := tp.ndec
+	if tp.Strat.Kind == "syncpct" {
+		step = tp.nmajor
+		if !tp.major {
+			step = -1
+		}
+	}
+	if tp.changes[step] && curFirst {
 		tp.prio[ids[0]] = tp.nextLow
 		tp.nextLow--
+		delete(tp.changes, step)
 	}
 	best := 0
 	for i, id := range ids {
